@@ -4,12 +4,15 @@
    offsets of the query and the bytes of err.Error() after BindQuery.  Accepted iff the KvErr contract
    holds: the offset is -1 or inside the query (for parse / check errors 0 or a token start) and the
    rendering shows the stretch of the query around the offset with the caret under it. *)
-EXTENDS KvErr, Json
+EXTENDS KvErr, KvLexer, Json
 Trace == ndJsonDeserialize("errs.ndjson")
 VARIABLE i
+\* the token starts of the query: from the KvLexer contract when it specifies the text, else as the engine lexed it
+TokStarts(c) == LET want == Tokenize(c.q) IN
+                IF Specified(want) THEN {want[x].pos : x \in 1..Len(want)} ELSE {c.tokpos[x] : x \in 1..Len(c.tokpos)}
 Verdict(c) ==
   IF c.panic # "" THEN "rendering-panics"
-  ELSE IF c.ekind # "direct" /\ ~PosValid(c.q, {c.tokpos[x] : x \in 1..Len(c.tokpos)}, c.pos, c.ekind) THEN
+  ELSE IF c.ekind # "direct" /\ ~PosValid(c.q, TokStarts(c), c.pos, c.ekind) THEN
        (IF c.pos >= Len(c.q) \/ c.pos < -1 THEN "position-outside-query" ELSE "position-not-a-token-start")
   ELSE IF c.q = <<>> THEN "ok"                                \* no query bound: the plain one-line form is used
   ELSE IF c.pos < -1 \/ c.pos > Len(c.q) THEN "ok"          \* direct objects with impossible offsets: not generated
